@@ -9,6 +9,8 @@ import shutil
 import subprocess
 import sys
 import tempfile
+import threading
+import time
 import zlib
 from concurrent.futures import ThreadPoolExecutor
 from pathlib import Path
@@ -56,7 +58,7 @@ MANIFEST = dict(
          'constrain_path=False and assignments to fs.path / fs.constrain_path from outside the class are exempt.',
 )
 
-IMPORTS = ['SV.SM.PathNorm', 'SV.SM.PathNormEnum', 'SV.SM.PathOps', 'SV.SM.PathWalkRel', 'SV.SM.PathMemo', 'SV.Gen.Containment_gen', 'SV.Gen.FsOps_gen', 'SV.Props.C18', 'Coq.NArith.NArith',
+IMPORTS = ['SV.SM.PathNorm', 'SV.SM.PathNormEnum', 'SV.SM.PathOps', 'SV.SM.PathWalkRel', 'SV.SM.PathMemo', 'SV.SM.PathHistory', 'SV.Gen.Containment_gen', 'SV.Gen.FsOps_gen', 'SV.Props.C18', 'Coq.NArith.NArith',
            'Coq.Lists.List']
 PRE = 'Import ListNotations.\n'
 CWD = '/w/cwd'
@@ -199,8 +201,9 @@ def _int(v: str) -> int:
     return int(v, 16) if v.startswith('0x') else int(v)
 
 
-def corr_exhaustive(ck: Ck) -> None:
-    """Model vs implementation over the whole segment domain: per block one Adler-32 computed by vm_compute."""
+def corr_exhaustive_start(ck: Ck):
+    """Model vs implementation over the whole segment domain: per block one Adler-32 computed by vm_compute.
+    Runs the implementation side, starts the coqc processes and returns; corr_exhaustive_finish compares."""
     fns = functions()
     full = ck.thorough or bool(ck.tie_broken) or bool(ESCALATE)
     # a job = one coqc process: (prefix, separator kind, [(alphabet, segment count, indexes of the functions compared)])
@@ -253,8 +256,16 @@ def corr_exhaustive(ck: Ck) -> None:
             prepared.append((job, exprs, exp, meta))
     import time
     ck.extra['corr_exhaustive_impl_side_s'] = round(time.time() - t_impl, 1)
-    with ThreadPoolExecutor(max_workers=8) as ex:
-        outs = list(ex.map(lambda pr: coq_run(ck, f'p{PREFIXES.index(pr[0][0])}k{pr[0][1]}', pr[1]), prepared))
+    # the coqc processes start now and run while the caller goes on (run() searches the real trees meanwhile)
+    ex = ThreadPoolExecutor(max_workers=8)
+    futs = [ex.submit(coq_run, ck, f'p{PREFIXES.index(pr[0][0])}k{pr[0][1]}', pr[1]) for pr in prepared]
+    ex.shutdown(wait=False)
+    return prepared, futs
+
+
+def corr_exhaustive_finish(ck: Ck, started) -> None:
+    prepared, futs = started
+    outs = [f.result() for f in futs]
     bad_blocks = []
     failed_eval = 0
     nblocks = 0
@@ -426,12 +437,13 @@ SEGS = ['..', '..', '.', '', 'in.txt', 'a', 'sub', 'deep.txt', 'root', 'root_evi
         'sub_evil', 'x.txt', 'x', 'above.txt', 'top.txt', 'other', 'roo', 'nested.txt', 'elsewhere', 'data.txt']
 
 _events: list | None = None
+_obs_thread = 0
 _hook_installed = False
 
 
 def _audit(event: str, args) -> None:
     ev = _events
-    if ev is None:
+    if ev is None or threading.get_ident() != _obs_thread:      # worker threads (coqc runs of the correspondence) are not observed
         return
     if event in ('open', 'os.scandir', 'os.listdir', 'os.walk') and args and isinstance(args[0], (str, bytes, os.PathLike)):
         ev.append((event, os.fsdecode(args[0])))
@@ -440,7 +452,8 @@ def _audit(event: str, args) -> None:
 @contextlib.contextmanager
 def observe():
     """Record every path handed to open / scandir / listdir / walk (audit events) and to os.stat / os.lstat."""
-    global _events, _hook_installed
+    global _events, _hook_installed, _obs_thread
+    _obs_thread = me = threading.get_ident()
     if not _hook_installed:
         sys.addaudithook(_audit)
         _hook_installed = True
@@ -448,12 +461,12 @@ def observe():
     ev: list = []
 
     def stat(path, *a, **k):
-        if isinstance(path, (str, bytes, os.PathLike)):
+        if isinstance(path, (str, bytes, os.PathLike)) and threading.get_ident() == me:
             ev.append(('os.stat', os.fsdecode(path)))
         return real_stat(path, *a, **k)
 
     def lstat(path, *a, **k):
-        if isinstance(path, (str, bytes, os.PathLike)):
+        if isinstance(path, (str, bytes, os.PathLike)) and threading.get_ident() == me:
             ev.append(('os.lstat', os.fsdecode(path)))
         return real_lstat(path, *a, **k)
 
@@ -482,10 +495,18 @@ def make_fs(base: str, root_spec: str, chain_prefix, constrain: bool = True):
     return FileSystemChain((raw, chain_prefix)), raw
 
 
+def _real(p: str) -> str:
+    """os.path.realpath; a broken filesystem may have wandered into /proc, where entries vanish while being resolved."""
+    try:
+        return os.path.realpath(p)
+    except OSError:
+        return os.path.normpath(os.path.abspath(p))
+
+
 def is_inside(root: str, p: str) -> bool:
     """Independent containment test used by the oracle: whole-component comparison of normalised real paths."""
-    r = os.path.realpath(root).split('/')
-    q = os.path.realpath(p).split('/')
+    r = _real(root).split('/')
+    q = _real(p).split('/')
     r = [c for c in r if c]
     q = [c for c in q if c]
     return q[:len(r)] == r
@@ -688,8 +709,8 @@ def run_op(base: str, root_spec: str, chain_prefix, op: str, path_t: str) -> dic
 
 
 def classify(root: str, p: str) -> str:
-    rp = os.path.realpath(root)
-    q = os.path.realpath(p)
+    rp = _real(root)
+    q = _real(p)
     if q.startswith(rp):
         return 'sibling-name-extends-root'
     if is_inside(q if os.path.isdir(q) else os.path.dirname(q), rp):
@@ -720,8 +741,12 @@ def search_trees(ck: Ck) -> None:
     found: dict[str, dict] = {}
     stats = {'prefix_escapes': 0}
 
+    op_seconds: dict[str, float] = {}
+
     def case(label, root_spec, cp, op, path_t, segs=None):
+        t0 = time.perf_counter()
         r = run_op(base, root_spec, cp, op, path_t)
+        op_seconds[op] = op_seconds.get(op, 0.0) + time.perf_counter() - t0
         ck.count('tree_operations')
         ck.hist('tree_op', op)
         ck.hist('tree_root_config', label)
@@ -747,7 +772,7 @@ def search_trees(ck: Ck) -> None:
         if key not in found or rank < found[key]['_rank']:
             found[key] = dict(rep, _rank=rank)
         found[key]['_n'] = n_prev + 1
-        return True
+        return key
 
     # 1. corpus + targeted spellings of every tree entry, every root configuration
     for label, root_spec in ROOT_CONFIGS:
@@ -774,18 +799,21 @@ def search_trees(ck: Ck) -> None:
         path_t = pre + join_kind(kind, segs)
         op = rng.choice(OPS)
         ck.hist('tree_random_segments', k)
-        if case(label, root_spec, cp, op, path_t) :
-            # shrink: drop segments while the same class of escape remains
+        hit = case(label, root_spec, cp, op, path_t)
+        if hit and found[hit]['_n'] <= 4:
+            # shrink (the first hits of every class only: on a broken tree thousands of random paths escape):
+            # drop segments while the same class of escape remains
             cur = segs
             changed = True
             while changed and len(cur) > 1:
                 changed = False
                 for i in range(len(cur)):
                     cand = cur[:i] + cur[i + 1:]
-                    if case(label, root_spec, cp, op, pre + join_kind(kind, cand)):
+                    if case(label, root_spec, cp, op, pre + join_kind(kind, cand)) == hit:
                         cur, changed = cand, True
                         break
     ck.extra['chain_prefix_escapes_inside_root(observation)'] = stats['prefix_escapes']
+    ck.extra['tree_op_seconds'] = {k: round(v, 1) for k, v in op_seconds.items()}
     ck.sample({'root': '{BASE}/t/root', 'op': 'open_bin', 'path': 'sub/../in.txt',
                'result': {k: v for k, v in run_op(base, '{BASE}/t/root', None, 'open_bin', 'sub/../in.txt').items()
                           if k in ('outcome', 'data')}})
@@ -997,6 +1025,7 @@ def run(ck: Ck) -> None:
                           'on normalised absolute paths, symbolic links are outside the quantifier')
     ck.assumptions.append('the working directory is absolute (hypothesis is_abs cwd of the theorems); os.getcwd() always is')
     assert os.sep == '/'
+    searched, ties_before = False, 0
     ok_t = ck.translate('Containment_gen', c18_guard.translate)
     ok_t = ck.translate('FsOps_gen', c18_ops.translate) and ok_t
     side = ck.extra.get('translated', {}).get('Containment_gen', {})
@@ -1016,10 +1045,14 @@ def run(ck: Ck) -> None:
             # nothing (decorator / cache / rebinding / attribute hook / subclass override) between a caller and the bodies read
             'resolve_path_is_called_unwrapped': 'resolve_path_is_not_wrapped',
             'no_method_of_the_file_system_classes_is_wrapped': 'no_method_of_the_file_system_classes_is_wrapped',
+            # no module / class level table, mutable default or method-object state readable by a second file-system object
+            'file_system_methods_share_no_mutable_state': 'file_system_methods_share_no_mutable_state',
         })
         for w in side.get('resolve_path_wrappers', []) + ck.extra.get('translated', {}).get('FsOps_gen', {}).get('method_wrappers', []):
             ck.notes.append('wrapper between callers and a method body: ' + ' / '.join(w))
         ops_side = ck.extra.get('translated', {}).get('FsOps_gen', {})
+        for w in ops_side.get('shared_mutable_state', []):
+            ck.notes.append('state shared between file-system objects: ' + ' / '.join(w))
         for m, c, b, p, _ in ops_side.get('raw_sites', []):
             ck.hist('os_call_site', f'{m}:{c}:{b}:{p}')
         info = ck.coq_eval(IMPORTS, ['handles_store_the_validated_string', 'length (handle_sites raw_sites)'], name='opsinfo')
@@ -1034,16 +1067,28 @@ def run(ck: Ck) -> None:
                             'correspondence compares every function on every block (escalated budget)')
             ESCALATE.append(True)
         t = _stage(ck, 'translate+build+obligations', t)
-        corr_exhaustive(ck)
-        t = _stage(ck, 'corr_exhaustive', t)
+        started = corr_exhaustive_start(ck)
+        t = _stage(ck, 'corr_exhaustive_implementation_side', t)
+        # the search on real trees runs in this thread while the coqc processes of the correspondence run
+        ties_before = len(ck.tie_broken)
+        search_trees(ck)
+        searched = True
+        t = _stage(ck, 'search_trees(while coqc runs)', t)
+        corr_exhaustive_finish(ck, started)
+        t = _stage(ck, 'corr_exhaustive_wait', t)
         corr_random(ck)
         t = _stage(ck, 'corr_random', t)
         check_casefold(ck)
         t = _stage(ck, 'casefold', t)
         corr_ops(ck)
         t = _stage(ck, 'corr_ops', t)
-    search_trees(ck)
-    t = _stage(ck, 'search_trees', t)
+    if not searched:
+        search_trees(ck)
+        t = _stage(ck, 'search_trees', t)
+    elif len(ck.tie_broken) > ties_before and not ck.thorough and not ck.violations:
+        # a correspondence disagreed after the search had run with the small budget: search again with the escalated one
+        search_trees(ck)
+        t = _stage(ck, 'search_trees_escalated', t)
     search_unify(ck)
     t = _stage(ck, 'search_unify', t)
     keys = {v['key'] for v in ck.violations}
@@ -1055,6 +1100,7 @@ def run(ck: Ck) -> None:
         ck.explain('instance:chain_and_file_classes_touch_no_file_system_themselves')
         ck.explain('instance:resolve_path_is_called_unwrapped')
         ck.explain('instance:no_method_of_the_file_system_classes_is_wrapped')
+        ck.explain('instance:file_system_methods_share_no_mutable_state')
         ck.explain('translate:FsOps_gen')
         ck.explain('instance:root_')
         ck.explain('instance:constrain_flag')
